@@ -2,6 +2,7 @@ package main
 
 import (
 	"fmt"
+	"reflect"
 	"go/token"
 	"go/types"
 	"os"
@@ -261,7 +262,7 @@ func (p *Prog) pos(pos token.Pos) string {
 
 // instrPos gives the best position available for an instruction.
 func (p *Prog) instrPos(in ssa.Instruction) string {
-	if in == nil {
+	if in == nil || reflect.ValueOf(in).IsNil() {
 		return "-"
 	}
 	if in.Pos().IsValid() {
